@@ -289,4 +289,85 @@ def validateOrFilter (name : List Nat) (s : Bytes) (repl : UInt8) : FilterVerdic
     | some .utf8 => let r := filterSingle (fun _ => false) s repl; .done r.1 r.2  -- unreachable: utf8 keys satisfy `isUtf8`
     | none => .external
 
+
+/-! ## `cppcms::widgets::base_text` (src/form.cpp): the text widget as a state machine over requests -/
+namespace Form
+
+/-- the members `load`/`validate` read and write -/
+structure St where
+  value : Bytes
+  isSet : Bool
+  isValid : Bool
+  codePoints : Nat          -- `size_t code_points_`
+  low : Int
+  high : Int
+  validateCharset : Bool
+  named : Bool              -- `!name().empty()`
+  external : Bool           -- the last load went through the iconv/ICU fallback of `encoding::valid` (not modelled)
+  deriving Repr, DecidableEq
+
+/-- a freshly constructed widget; `cp0` stands for the indeterminate value of an uninitialised
+`code_points_` (used only when the constructor does not initialise it) -/
+def init (cp0 : Nat) : St :=
+  { value := [], isSet := false, isValid := true, codePoints := Gen.Form.ctorCount.getD cp0,
+    low := Gen.Form.ctorLow, high := Gen.Form.ctorHigh, validateCharset := Gen.Form.ctorValidateCharset,
+    named := false, external := false }
+
+/-- what one request offers to the widget: the locale's encoding name and the field
+(`none` = no such field in the request) -/
+structure Req where
+  enc : List Nat
+  field : Option Bytes
+
+/-- `void base_text::load(http::context &)` -/
+def load (st : St) (rq : Req) : St :=
+  let st1 : St := { st with
+    value := if Gen.Form.loadClearsValue then [] else st.value,
+    codePoints := Gen.Form.loadResetCount.getD st.codePoints,
+    isSet := Gen.Form.loadMarksSet.getD st.isSet,
+    isValid := Gen.Form.loadMarksValid.getD st.isValid,
+    external := false }
+  if !st1.named then st1
+  else match rq.field with
+    | none => st1
+    | some v =>
+      if st1.validateCharset then
+        let start := Gen.Form.loadCountBeforeValid.getD st1.codePoints
+        match valid rq.enc v with               -- `encoding::valid(locale, …, code_points_)` adds to the count
+        | .ok ok n => { st1 with value := v, codePoints := start + n, isValid := st1.isValid && ok }
+        | .external => { st1 with value := v, codePoints := start, external := true }
+      else { st1 with value := v, codePoints := v.length }
+
+/-- `bool base_text::validate()`: `(return value, state afterwards)` -/
+def validate (st : St) : Bool × St :=
+  if !st.isValid then (false, st)
+  else if Gen.Form.validateEarlyOk st.isSet st.low st.high then (true, { st with isValid := true })
+  else if Gen.Form.validateOutOfLimits (st.codePoints : Int) st.low st.high then (false, { st with isValid := false })
+  else (true, st)
+
+/-- everything an application can do to the widget between and around requests -/
+inductive Op where
+  | load (rq : Req)
+  | validate
+  | limits (min max : Int)
+  | nonEmpty
+  | validateCharset (v : Bool)
+  | setValue (v : Bytes)       -- `value(std::string)`
+  | clear
+  | name (nonEmpty : Bool)
+
+def apply (st : St) : Op → St
+  | .load rq => load st rq
+  | .validate => (validate st).2
+  | .limits a b => { st with low := a, high := b }
+  | .nonEmpty => { st with low := Gen.Form.nonEmptyLow, high := Gen.Form.nonEmptyHigh }
+  | .validateCharset v => { st with validateCharset := v }
+  | .setValue v => { st with isSet := true, value := v }
+  | .clear => { st with isSet := false }
+  | .name b => { st with named := b }
+
+def run (st : St) (ops : List Op) : St := ops.foldl apply st
+
+end Form
+
 end Cppcms.C14
